@@ -906,7 +906,11 @@ func replayMachine(args []string) (any, error) {
 			hangs++
 			miss("hang", map[string]any{"hang": "uninterrupted run did not return within the watchdog"})
 			if hangs > 3 {
-				return nil, fmt.Errorf("too many hangs")
+				// the stuck runs keep spinning: stop the sweep here and report what was established (hangs are violations)
+				sum.Extra["stopped_after_hangs"] = hangs
+				sum.Extra["cancel_runs"] = cancelRuns
+				sum.Extra["unspecified_by_model"] = nUnspec
+				return sum, nil
 			}
 			continue
 		}
@@ -1010,7 +1014,11 @@ func replayMachine(args []string) (any, error) {
 				bad = true
 			}
 			if hangs > 3 {
-				return nil, fmt.Errorf("too many hangs")
+				// the stuck runs keep spinning: stop the sweep here and report what was established (hangs are violations)
+				sum.Extra["stopped_after_hangs"] = hangs
+				sum.Extra["cancel_runs"] = cancelRuns
+				sum.Extra["unspecified_by_model"] = nUnspec
+				return sum, nil
 			}
 		}
 		if bad {
